@@ -3,6 +3,6 @@ From IV Require Import Base.Bytes Model.Policy Model.Smtp Gen.SmtpReplies Proofs
 From Coq Require Import ZifyBool Lia.
 From IV Require Import Proofs.SmtpReplies.
 Theorem pinned_codes_written :
-  forallb (fun code => (code =? 220)%Z || existsb (fun w => writes w code) witnesses) smtp_reply_codes = true.
+  forallb (fun code => existsb (fun w => writes w code) witnesses) smtp_reply_codes = true.
 Proof. first [exact SmtpReplies.pinned_codes_written | intros; apply SmtpReplies.pinned_codes_written]. Qed.
 Print Assumptions pinned_codes_written.
